@@ -29,6 +29,24 @@ theorem listby_distinct (keys : List Val) :
   refine ⟨g, hg, he, fun g' hg' he' => ?_⟩
   exact group_unique (listbyG_sorted keys) hg' hg (cmp_eq_trans (cmp_eq_symm he') he)
 
+/-- **exactly one row per distinct key, as a count**: for every row, exactly one group has a key
+`cmp`-equal to the row's key; and (non-empty table) every group's key is the key of one of the rows —
+so the groups are in one-to-one correspondence with the distinct keys (`listby_distinct`: no two groups
+share a key). -/
+theorem listby_one_row_per_key (keys : List Val) :
+    (∀ i, i < keys.length →
+      ((listbyG keys).filter fun g => cmp (keyAt keys i) g.1 == .eq).length = 1) ∧
+    (keys ≠ [] → ∀ g ∈ listbyG keys, ∃ i, i < keys.length ∧ cmp (keyAt keys i) g.1 = .eq) := by
+  constructor
+  · intro i hi
+    obtain ⟨g, hg, hig⟩ := mem_listbyG.2 hi
+    rw [sortedG_filter_eq (listbyG_sorted keys) hg ((mem_group_iff hg).1 hig).2]
+    rfl
+  · intro hne g hg
+    have hn := listbyG_nonempty hne g hg
+    obtain ⟨i, hi⟩ := List.exists_mem_of_ne_nil _ hn
+    exact ⟨i, (mem_group_iff hg).1 hi⟩
+
 /-- **original row order inside a group**: the row ids of a group are exactly the rows whose key
 equals the group's key, listed in increasing (= original) order -/
 theorem listby_order (keys : List Val) (g : Grp) (hg : g ∈ listbyG keys) :
@@ -175,6 +193,25 @@ theorem groupby_all_keys (t : Table) (grp : String) (hn : t.nrows ≠ 0) :
     | cons c cs => simp [Table.cols]
   have hc' : t.cols.isEmpty = false := by cases h : t.cols <;> simp_all
   simp [Table.groupby, hn, hc, hc']
+
+/-- table level: `d.listby(by)` has one row per group, i.e. per distinct key -/
+theorem listby_nrows (t : Table) (by_ : List String) (keys : List Val)
+    (hn : t.nrows ≠ 0) (hb : by_ ≠ []) (hk : t.keysOf (by_.map .col) = .ok keys) :
+    ∃ l, t.listby by_ = .ok l ∧ l.nrows = (listbyG keys).length := by
+  refine ⟨_, listby_table t by_ keys hn hb hk, ?_⟩
+  cases by_ with
+  | nil => exact absurd rfl hb
+  | cons b bs => simp [keyColsOf, VTable.nrows, List.zipIdx_cons]
+
+/-- table level: `d.groupby(by)` has one row (one sub-table) per distinct key -/
+theorem groupby_nrows (t : Table) (by_ : List String) (grp : String) (keys : List Val)
+    (hn : t.nrows ≠ 0) (hb : by_ ≠ []) (hlt : by_.length ≠ t.cols.length)
+    (hk : t.keysOf (by_.map .col) = .ok keys) :
+    ∃ l, t.groupby by_ grp = .ok l ∧ l.nrows = (listbyG keys).length := by
+  refine ⟨_, groupby_table t by_ grp keys hn hb hlt hk, ?_⟩
+  cases by_ with
+  | nil => exact absurd rfl hb
+  | cons b bs => simp [keyColsOf, VTable.nrows, List.zipIdx_cons]
 
 /-! ## pivot / unpivot -/
 
